@@ -252,7 +252,9 @@ def run_group(desc, tid0):
             f = rel.Facts(tid, dict(kind=desc["kind"], positive=desc.get("positive"),
                                     op="subdiff_distance", w=w.tolist(), g=g.tolist()))
             try:
-                d = np.asarray(pen.subdiff_distance(w, g, np.arange(len(grs))), dtype=float)
+                # the code expects the gradient STACKED group by group (working-set order)
+                gstack = np.concatenate([g[np.asarray(idx)] for idx in grs])
+                d = np.asarray(pen.subdiff_distance(w, gstack, np.arange(len(grs))), dtype=float)
             except Exception as e:  # noqa: BLE001
                 d = np.full(len(grs), np.nan)
                 f.meta["exc"] = type(e).__name__
